@@ -117,25 +117,33 @@ def inputs():
 # on the data he holds.  A routine that overwrites its inputs therefore shows up as "same seed, same arguments,
 # different result" (it is a C15 violation too; the `inp` field of the events says whether the arguments changed).
 _ARGS = {}
+_ALT = [False]      # the "alt" entry class of a trace: the SAME routine on the float32 version of the SAME arguments
 
 
 def new_trace_arguments():
     _ARGS.clear()
+    _ALT[0] = False
+
+
+def _version(a, alt):
+    def one(x):
+        return x.astype(np.float32) if alt and x.dtype.kind == "f" else x.copy()
+    return [one(x) for x in a] if isinstance(a, list) else one(a)
 
 
 def c(a):
-    k = id(a)
+    k = (id(a), _ALT[0])
     if k not in _ARGS:
-        _ARGS[k] = (a, [x.copy() for x in a] if isinstance(a, list) else a.copy())      # keep `a` alive: ids stay unique
-    return _ARGS[k][1]
+        _ARGS[k] = (a, _version(a, _ALT[0]), _version(a, _ALT[0]))      # (keeps `a` alive, pristine content, caller's object)
+    return _ARGS[k][2]
 
 
 def arguments_digest():
     """constant while every argument object still holds its pristine content; otherwise identifies what they hold now"""
     changed = []
     for k in sorted(_ARGS):
-        orig, mine = _ARGS[k]
-        if _flat(orig, []) != _flat(mine, []):
+        _, pristine, mine = _ARGS[k]
+        if _flat(pristine, []) != _flat(mine, []):
             changed.append(_flat(mine, []))
     return _h(["changed"] + [str(x) for x in changed]) if changed else "pristine"
 
@@ -198,6 +206,11 @@ def _entries():
     # backend samplers (parameter is called `seed`)
     add("tl.randn", "", lambda rs: tl.randn((3, 2), seed=rs), det_unfold)
     add("tl.gamma", "", lambda rs: tl.gamma(2.0, 1.5, size=(3, 2), seed=rs), det_unfold)
+    # the seed handed over POSITIONALLY (valid call forms of the tree this was built on)
+    add("tl.randn", "seed positional", lambda rs: tl.randn((3, 2), rs), det_unfold)
+    add("tl.gamma", "seed positional", lambda rs: tl.gamma(2.0, 1.5, (3, 2), rs), det_unfold)
+    add("random_tensor", "seed positional", lambda rs: tr.random_tensor((3, 4, 2), rs), det_unfold, slow=True)
+    add("random_cp", "seed positional", lambda rs: tr.random_cp((3, 4, 2), 2, False, False, rs), det_cpt, slow=True)
     add("tl.check_random_state", "draw", lambda rs: tl.check_random_state(rs).random_sample(5), det_unfold)
 
     # ---- CP
@@ -429,7 +442,7 @@ def run_trace(case):
 
     np.random.seed(int(case["start"]))
     gform = GENFORMS[case.get("genform", "RandomState")]
-    gens = {g: gform(int(real[int(ms)])) for g, ms in sorted(case["genseed"].items())}
+    gens = {g: gform(int(real[int(ms)]) % 2**32) for g, ms in sorted(case["genseed"].items())}
     # estimator objects constructed ONCE per trace with an integer seed and then fitted repeatedly (class entries only)
     objseed = {o: int(ms) for o, ms in case.get("objseed", {}).items()}
     objs = {}
@@ -472,11 +485,11 @@ def run_trace(case):
         if op["op"] == "Perturb":
             perturb()
         elif op["op"] == "Reseed":
-            np.random.seed(int(real[int(op["s"])]))
+            np.random.seed(int(real[int(op["s"])]) % 2**32)
         else:
             if op["op"] == "CallNone":
                 call = ent["det"] if op["e"] == "det" else (lambda: ent["rand"](None))
-            elif op["e"] != "rand":
+            elif op["e"] not in ("rand", "alt"):
                 raise ValueError("only the seed-accepting entry can be seeded")
             elif op["op"] == "CallInt":
                 call = lambda: ent["rand"](real[int(op["s"])])
@@ -490,6 +503,9 @@ def run_trace(case):
                 call = lambda: ent["obj"]["fit"](ent["obj"]["clone"](the_obj(op["o"])))
             else:
                 raise ValueError(op["op"])
+            if op["e"] == "alt" and op["op"] in ("FitObj", "CloneFit"):
+                raise ValueError("objects are only used with the primary entry")
+            _ALT[0] = op["e"] == "alt"
             try:
                 ev["res"] = intern("R" + result_digest(call()))
             except Exception as ex:
@@ -498,6 +514,8 @@ def run_trace(case):
                 ev["out"] = "raised"
                 ev["exc"] = "%s: %s" % (type(ex).__name__, str(ex)[:200])
                 ev["res"] = intern("X" + type(ex).__name__)
+            finally:
+                _ALT[0] = False
         ev.update(obs())
         events.append(ev)
     return events
